@@ -319,6 +319,20 @@ func runC19(ctx *core.Ctx, idx int) *core.Result {
 	kind := c19FaultKinds[idx%len(c19FaultKinds)]
 	var altPos []string
 	text, line, cols, at, shape, also := c19PatchAlt(r, kind, &altPos)
+	bom := idx%11 == 5
+	if bom {
+		// a byte order mark in front of the patch: it is itself a token that does not belong there (1:1), or, for a
+		// reader that skips it, three bytes that the first line's columns have to count
+		text = "\ufeff" + text
+		shape += "+byte-order-mark"
+		if line == 1 {
+			for i := range cols {
+				cols[i] += 3
+			}
+		}
+		altPos = append(altPos, "1:1")
+		also = nil // the first diagnostic may be the only one
+	}
 	target := "package p\n\nfunc f() { foo0(1); foo1(1); foo2(1); foo3(1); foo4(1) }\n"
 	wantPos := func(name string) []string {
 		var out []string
